@@ -8,8 +8,17 @@ import (
 // inside the loop (or v is nil): v is built only from nil, allocations located in the loop, and
 // appends / reslices / phis of such values. A slice allocated before the loop does not qualify.
 func (fx *loopFx) loopFreshSlice(v ssa.Value, seen map[ssa.Value]bool) bool {
+	bases, ok := fx.sliceBases(v, seen)
+	return ok && len(bases) == 0
+}
+
+// sliceBases computes the backing arrays, existing when the loop is entered, that the slice value
+// v can refer to: the bases of slices made before the loop in this function. Arrays allocated
+// inside the loop (make, append growth) are not listed - they are invisible at the loop head.
+// ok=false if v may refer to an array this analysis cannot name (parameters, loads, calls).
+func (fx *loopFx) sliceBases(v ssa.Value, seen map[ssa.Value]bool) ([]string, bool) {
 	if seen[v] {
-		return true
+		return nil, true
 	}
 	seen[v] = true
 	inLoop := func(in ssa.Instruction) bool {
@@ -17,22 +26,33 @@ func (fx *loopFx) loopFreshSlice(v ssa.Value, seen map[ssa.Value]bool) bool {
 	}
 	switch x := v.(type) {
 	case *ssa.Const:
-		return x.Value == nil // nil slice
+		return nil, x.Value == nil // nil slice
 	case *ssa.MakeSlice:
-		return inLoop(x)
-	case *ssa.Slice:
-		return fx.loopFreshSlice(x.X, seen)
-	case *ssa.Phi:
-		for _, e := range x.Edges {
-			if !fx.loopFreshSlice(e, seen) {
-				return false
+		if inLoop(x) {
+			return nil, true
+		}
+		if x.Parent() == fx.frame.fn {
+			if val, ok := fx.st.env[x]; ok && val.K == KSlice {
+				return []string{val.Base()}, true
 			}
 		}
-		return true
+		return nil, false
+	case *ssa.Slice:
+		return fx.sliceBases(x.X, seen)
+	case *ssa.Phi:
+		var out []string
+		for _, e := range x.Edges {
+			b, ok := fx.sliceBases(e, seen)
+			if !ok {
+				return nil, false
+			}
+			out = append(out, b...)
+		}
+		return out, true
 	case *ssa.Call:
 		if b, ok := x.Call.Value.(*ssa.Builtin); ok && b.Name() == "append" {
-			return fx.loopFreshSlice(x.Call.Args[0], seen)
+			return fx.sliceBases(x.Call.Args[0], seen)
 		}
 	}
-	return false
+	return nil, false
 }
